@@ -13,7 +13,7 @@ pub enum IoErrorKind { InvalidInput, UnexpectedEof, InvalidData, Other }
 pub struct IoError { pub k: IoErrorKind }
 pub struct Msg;
 #[verifier::external_body]
-fn msg() -> Msg { Msg }
+fn opaque_msg() -> Msg { Msg }
 impl IoError {
     pub fn kind(&self) -> (r: IoErrorKind) ensures r == self.k { self.k }
     pub fn new(k: IoErrorKind, _m: Msg) -> (r: IoError) ensures r.k == k { IoError { k } }
